@@ -15,17 +15,18 @@ theorem grantsL_append_notGranted (ws : List Waiter) (w : Waiter) (h : w.st ≠ 
 
 /-- queueing behind the pool semaphore moves no slot (it only happens when the semaphore is locked, which an
 unbounded semaphore without waiters never is) -/
-theorem good_waitRoom {cap : Cap} (p : Pool) (m) (hg : Good cap p) (hl : p.sem.locked = true) :
-    Good cap (p.waitRoom m) := by
+theorem good_waitRoom {cap : Cap} {L : Bool} (p : Pool) (m) (hg : Good cap L p) (hl : p.sem.locked = true) :
+    Good cap L (p.waitRoom m) := by
   have facts : (p.waitRoom m).sem.value = p.sem.value ∧ grantsL (p.waitRoom m).sem.waiters = grantsL p.sem.waiters ∧
       (p.waitRoom m).tasks = p.tasks ∧ (p.waitRoom m).running = p.running ∧ (p.waitRoom m).cancelledR = p.cancelledR ∧
-      (p.waitRoom m).ended = p.ended ∧ (p.waitRoom m).lost = p.lost ∧ (p.waitRoom m).groups = p.groups := by
+      (p.waitRoom m).ended = p.ended ∧ (p.waitRoom m).lost = p.lost ∧ (p.waitRoom m).groups = p.groups ∧
+      (p.waitRoom m).apis = p.apis := by
     unfold waitRoom
     simp only
     split <;> simp_all [grantsL, List.countP_append, schedMeta, emitRef, modReq]
-  obtain ⟨f1, f2, f3, f4, f5, f6, f7, f8⟩ := facts
+  obtain ⟨f1, f2, f3, f4, f5, f6, f7, f8, f9⟩ := facts
   refine ⟨?_, fun i tk h hn => hg.phase i tk (by rw [← f3]; exact h) hn, hg.reg.of_eq f3 f4 f5 f6 f7,
-    hg.grp.of_eq f8 (by rw [f3]), hg.life.of_eq f3 f7⟩
+    hg.grp.of_eq f8 (by rw [f3]), hg.life.of_eq f3 f7, (hg.strict.of_eq f7 f9).1, (hg.strict.of_eq f7 f9).2⟩
   cases cap with
   | fin n =>
     obtain ⟨v, hv, hs⟩ := hg.slot
@@ -82,12 +83,12 @@ theorem _root_.Taskpool.GroupsOK.create {p : Pool} (hr : GroupsOK p) (g : String
     · exact Nat.lt_succ_of_lt (hr.lt i h)
 
 /-- appending a fresh task in phase `created` -/
-theorem good_createTask_afterTake {cap : Cap} (p : Pool) (m : Nat) (isMap : Bool)
-    (hph : PhaseOK p) (hreg : RegOK p) (hgrp : GroupsOK p) (hlife : LifeOK p) (hpre : SlotPre cap p) :
-    Good cap (p.createTask m isMap) := by
+theorem good_createTask_afterTake {cap : Cap} {L : Bool} (p : Pool) (m : Nat) (isMap : Bool)
+    (hph : PhaseOK p) (hreg : RegOK p) (hgrp : GroupsOK p) (hlife : LifeOK p) (hpre : SlotPre cap p) (hst : Strict L p) :
+    Good cap L (p.createTask m isMap) := by
   unfold createTask
   simp only
-  refine ⟨?_, ?_, hreg.create _ rfl _ rfl rfl rfl rfl rfl, hgrp.create _ _ _ rfl rfl, ?_⟩
+  refine ⟨?_, ?_, hreg.create _ rfl _ rfl rfl rfl rfl rfl, hgrp.create _ _ _ rfl rfl, ?_, hst.1, hst.2⟩
   rotate_left 2
   · intro i tk' h
     simp only [emitRef_tasks, modReq_tasks] at h
@@ -118,11 +119,11 @@ theorem good_createTask_afterTake {cap : Cap} (p : Pool) (m : Nat) (isMap : Bool
         rw [this] at h; simp at h; subst h; rfl
       · rw [List.getElem?_eq_none (by simpa using hge1)] at h; cases h
 
-theorem good_takeSlotAndCreate {cap : Cap} (p : Pool) (m : Nat) (isMap : Bool) (hg : Good cap p)
-    (hl : p.sem.locked = false) : Good cap (p.takeSlotAndCreate m isMap) := by
+theorem good_takeSlotAndCreate {cap : Cap} {L : Bool} (p : Pool) (m : Nat) (isMap : Bool) (hg : Good cap L p)
+    (hl : p.sem.locked = false) : Good cap L (p.takeSlotAndCreate m isMap) := by
   unfold takeSlotAndCreate
   refine good_createTask_afterTake _ m isMap (fun i tk h hn => hg.phase i tk h hn)
-    (hg.reg.of_eq rfl rfl rfl rfl rfl) (hg.grp.of_eq rfl rfl) (hg.life.of_eq rfl rfl) ?_
+    (hg.reg.of_eq rfl rfl rfl rfl rfl) (hg.grp.of_eq rfl rfl) (hg.life.of_eq rfl rfl) ?_ hg.strict
   cases cap with
   | fin n =>
     obtain ⟨v, hv, hs⟩ := hg.slot
@@ -134,7 +135,7 @@ theorem good_takeSlotAndCreate {cap : Cap} (p : Pool) (m : Nat) (isMap : Bool) (
     simp [hv, hw, Cap.dec]
 
 /-- `_apply_spawner`/`_start_num` from any position -/
-theorem good_applyLoop {cap : Cap} (m n : Nat) (p : Pool) (hg : Good cap p) : Good cap (applyLoop m n p) := by
+theorem good_applyLoop {cap : Cap} {L : Bool} (m n : Nat) (p : Pool) (hg : Good cap L p) : Good cap L (applyLoop m n p) := by
   induction n generalizing p with
   | zero =>
     unfold applyLoop
@@ -142,7 +143,7 @@ theorem good_applyLoop {cap : Cap} (m n : Nat) (p : Pool) (hg : Good cap p) : Go
   | succ n ih =>
     unfold applyLoop
     simp only
-    have hg0 : Good cap (p.modReq m fun x => { x with remaining := n + 1 }) := (tame_modReq p m _).good hg
+    have hg0 : Good cap L (p.modReq m fun x => { x with remaining := n + 1 }) := (tame_modReq p m _).good hg
     split
     · exact ih _ ((tame_modReq _ m _).good hg0)
     · split
@@ -154,7 +155,7 @@ theorem good_applyLoop {cap : Cap} (m n : Nat) (p : Pool) (hg : Good cap p) : Go
           · rename_i hl
             exact ih _ (good_takeSlotAndCreate _ m false hg0 (by simpa using hl))
 
-theorem good_mapStartTask {cap : Cap} (p : Pool) (m : Nat) (hg : Good cap p) : Good cap (p.mapStartTask m).1 := by
+theorem good_mapStartTask {cap : Cap} {L : Bool} (p : Pool) (m : Nat) (hg : Good cap L p) : Good cap L (p.mapStartTask m).1 := by
   unfold mapStartTask
   split
   · exact (tame_finishMeta p m _).good hg
@@ -169,8 +170,8 @@ theorem tame_pullItem (p : Pool) (m rest) : Tame p (p.pullItem m rest) := by
   exact Tame.trans (Tame.trans (tame_modReq p m _) (tame_logEv _ _)) (tame_runHooks _ m _)
 
 /-- `_arg_consumer` from any position, argument iterator (user code) included -/
-theorem good_mapLoop {cap : Cap} (m : Nat) (items : List Item) (p : Pool) (hg : Good cap p) :
-    Good cap (mapLoop m items p) := by
+theorem good_mapLoop {cap : Cap} {L : Bool} (m : Nat) (items : List Item) (p : Pool) (hg : Good cap L p) :
+    Good cap L (mapLoop m items p) := by
   induction items generalizing p with
   | nil =>
     unfold mapLoop
@@ -183,13 +184,13 @@ theorem good_mapLoop {cap : Cap} (m : Nat) (items : List Item) (p : Pool) (hg : 
     · exact ih _ ((tame_modReq _ m _).good hg0)
     · split
       · exact (tame_waitMapSem _ m).good hg0
-      · have hg1 : Good cap ((p.pullItem m rest).takeMapSlot m) := (tame_modReq _ m _).good hg0
+      · have hg1 : Good cap L ((p.pullItem m rest).takeMapSlot m) := (tame_modReq _ m _).good hg0
         have hg2 := good_mapStartTask _ m hg1
         split
         · exact ih _ hg2
         · exact hg2
 
-theorem good_continueSpawner {cap : Cap} (p : Pool) (m : Nat) (hg : Good cap p) : Good cap (p.continueSpawner m) := by
+theorem good_continueSpawner {cap : Cap} {L : Bool} (p : Pool) (m : Nat) (hg : Good cap L p) : Good cap L (p.continueSpawner m) := by
   unfold continueSpawner
   simp only
   split
